@@ -334,6 +334,55 @@ func run(c *mc.Ctx, r *mc.Result) {
 		}
 	}
 	runSpecs(c, r, "space.infix-then-wildcards", sp7, 2, rq7)
+	runManyMethods(c, r)
+}
+
+// runManyMethods: routers with many methods (12…70 custom methods next to the standard ones: more method roots than
+// any fixed-width bookkeeping of 8, 16, 32 or 64 entries holds), every method serving /a or /b (alternating) and every
+// fifth one also /c: the Allow list names every serving method wherever its root sits.
+func runManyMethods(c *mc.Ctx, r *mc.Result) {
+	sizes := []int{12, 13, 16, 17, 29, 33, 61, 66, 70}
+	r.Bounds["space.many-methods"] = fmt.Sprintf("routers with %v custom methods x 4 option profiles x 8 requests", sizes)
+	for si, n := range sizes {
+		if !c.Mine(si) {
+			continue
+		}
+		var set []rsx.RouteSpec
+		for k := 0; k < n; k++ {
+			m := "M" + string(rune('A'+k/26)) + string(rune('A'+k%26))
+			set = append(set, rsx.RouteSpec{Method: m, Pattern: []string{"/a", "/b"}[k%2]})
+			if k%5 == 4 {
+				set = append(set, rsx.RouteSpec{Method: m, Pattern: "/c", Slash: rsx.SlashIgnore})
+			}
+		}
+		set = append(set, rsx.RouteSpec{Method: "GET", Pattern: "/a"})
+		var rqs []rsx.Req
+		for _, p := range []string{"/a", "/b", "/c/", "/d"} {
+			for _, m := range []string{"DELETE", "OPTIONS"} {
+				rqs = append(rqs, rsx.Req{Method: m, Path: p})
+			}
+		}
+		for _, prof := range []rsx.Profile{{}, {NoMethod: true}, {AutoOptions: true}, {NoMethod: true, AutoOptions: true}} {
+			e, err := build(set, prof, false)
+			if err != nil {
+				r.Violate("unserved", "error", fmt.Sprintf("a router with %d custom methods cannot be built: %v", n, err), Case{Set: set, Prof: prof})
+				continue
+			}
+			r.States++
+			for qi, rq := range rqs {
+				_, _, class, msg := eval(e, rq)
+				r.Evaluations++
+				r.Transitions++
+				r.DistinctNontrivial++
+				if class != "" {
+					if len(msg) > 1500 {
+						msg = msg[:700] + " … " + msg[len(msg)-700:]
+					}
+					r.Violate("unserved", class, fmt.Sprintf("[%d custom methods] ", n)+msg, Case{Set: set, Prof: prof, Reqs: rqs[:qi+1]})
+				}
+			}
+		}
+	}
 }
 
 // viaUpdate selects BuildViaUpdate for the family being run (set by run only)
